@@ -80,6 +80,9 @@ ASSUMPTIONS = [
     "call sequences on sets: X (n x k), A (rows of X rolled by one, columns reversed, 3.5+0.5i added to the first row), W = X * (real factor per "
     "column) as C-ordered, Fortran-ordered and strided-view arrays; operations MAC(X, A), MCF(X), MSF(X, W) and MAC/MPC/MPD/MCF/MSF on the column "
     "view X[:, k-1]; complex payload sets are drawn with phases within +-0.5 rad so that they lie inside MSF's domain",
+    "MAC of two 2-shape sets (every ordered pair of sets over the Gaussian-integer vector alphabet) is also called with the two sets handed over "
+    "as two views of ONE array (adjacent column blocks B[:, :2] / B[:, 2:] in both argument orders, and overlapping blocks B[:, 0:2] / B[:, 1:3]): "
+    "same definition, same tolerance - an indicator is a function of the values, whatever memory the two arguments share",
     "dtype axis: MPC/MPD of a non-collinear complex64 shape are compared with the library's own value on the complex128 copy of the "
     "same values (that value is judged by the vector route); MCF and MAC against closed forms; collinear shapes against 1 / 0 / 0 / 1",
 ]
